@@ -1,6 +1,6 @@
 SPECIFICATION Spec
 CONSTANTS
-  Spans = {328, 329, 365, 366, 400}
+  Spans = {328, 329, 365, 366, 420}
   Classes = {"daily", "billing", "hourly"}
   StartSet <- StartsQuick
 INVARIANT OracleSelfConsistent
